@@ -2,6 +2,7 @@ package c06
 
 import (
 	"fmt"
+	"strings"
 
 	"verif/harness/vh"
 )
@@ -14,6 +15,7 @@ type shape struct {
 	Extra  func(n *Place) []Op // keyed entries are added by statements (a keyed literal is another runtime type)
 	Inner  *IKey               // key of an inner array, if any
 	Inner2 *IKey               // key of an array inside that one
+	Strs   bool                // holds strings (the model ranks them alike: no sort)
 }
 
 func setI(b *Place, k IKey, r *RV) Op { return Op{K: "setIdx", B: b, Key: kp(k), R: r} }
@@ -40,6 +42,16 @@ var shapes = []shape{
 	{Name: "deepk", Lit: LArr(LInt(0)), Extra: func(n *Place) []Op {
 		return []Op{setI(n, KS(0), RLit(LArr(LInt(1), LArr(LInt(2), LInt(3)))))}
 	}, Inner: kp(KS(0)), Inner2: kp(KI(1))},
+	// string / mixed scalar elements: copies share their value objects, which must never be changed in place
+	{Name: "strs", Lit: LArr(LStr("abcdefgh"), LStr("ijklmnop"), LStr("qr")), Strs: true},
+	{Name: "smix", Lit: LArr(LStr("abcdefgh"), LInt(7), Lit{K: "ln"}), Strs: true},
+	{Name: "strkeyed", Lit: LArr(), Extra: func(n *Place) []Op {
+		return []Op{setI(n, KS(0), RStr("abcdefgh")), setI(n, KS(1), RStr("ijklmnop"))}
+	}, Strs: true},
+	{Name: "strnest", Lit: LArr(LArr(LStr("abcdefgh"), LStr("ij")), LArr(LStr("kl"))), Inner: kp(KI(0)), Strs: true},
+	{Name: "strnestk", Lit: LArr(LInt(7)), Extra: func(n *Place) []Op {
+		return []Op{setI(n, KS(0), RLit(LArr(LStr("abcdefgh"), LInt(5))))}
+	}, Inner: kp(KS(0)), Strs: true},
 }
 
 func shapeByName(n string) *shape {
@@ -230,8 +242,8 @@ var mutations = []mutation{
 	{"shift", func(n *Place, s *shape) *Op { return m(Op{K: "meth", B: n, M: "shift"}) }},
 	{"unshift", func(n *Place, s *shape) *Op { return m(Op{K: "meth", B: n, M: "unshift", N: 9}) }},
 	{"sort", func(n *Place, s *shape) *Op {
-		if s.Inner != nil {
-			return nil // ordering of array-valued elements is not what C06 is about
+		if s.Inner != nil || s.Strs {
+			return nil // ordering of array-valued elements is not what C06 is about; the model ranks strings alike
 		}
 		return m(Op{K: "meth", B: n, M: "sort"})
 	}},
@@ -288,6 +300,74 @@ var mutations = []mutation{
 	}},
 }
 
+// compound assignments on an element (the new value is computed from the old one): `.=`, `+=`, `*=`, `??=`
+// on the first / second / third element, on a string key, on a missing key, one level down
+func init() {
+	flat := func(s *shape) bool { return s.Inner == nil }
+	mutations = append(mutations, []mutation{
+		{"catIdx", func(n *Place, s *shape) *Op {
+			if !flat(s) || s.Name == "empty" || s.Name == "keyed" || s.Name == "strkeyed" {
+				return nil
+			}
+			return m(cmpd(n, KI(0), UCat("xy")))
+		}},
+		{"catKey", func(n *Place, s *shape) *Op {
+			if s.Name != "keyed" && s.Name != "strkeyed" && s.Name != "mixed" {
+				return nil
+			}
+			return m(cmpd(n, KS(0), UCat("xy")))
+		}},
+		{"catLast", func(n *Place, s *shape) *Op {
+			if s.Name != "strs" && s.Name != "list" && s.Name != "smix" {
+				return nil
+			}
+			return m(cmpd(n, KI(2), UCat("z")))
+		}},
+		{"addIdx", func(n *Place, s *shape) *Op {
+			if s.Name != "list" && s.Name != "perm" && s.Name != "smix" && s.Name != "sparse" {
+				return nil
+			}
+			return m(cmpd(n, KI(1), UAdd(3)))
+		}},
+		{"mulIdx", func(n *Place, s *shape) *Op {
+			if s.Name != "list" && s.Name != "perm" && s.Name != "smix" {
+				return nil
+			}
+			return m(cmpd(n, KI(1), UMul(3)))
+		}},
+		{"coalesceIdx", func(n *Place, s *shape) *Op {
+			if s.Name != "list" && s.Name != "smix" && s.Name != "strs" {
+				return nil
+			}
+			return m(cmpd(n, KI(2), UCoalesce(5)))
+		}},
+		{"coalesceNew", func(n *Place, s *shape) *Op {
+			if !flat(s) {
+				return nil
+			}
+			return m(cmpd(n, KI(7), UCoalesce(5)))
+		}},
+		{"nestedCatIdx", func(n *Place, s *shape) *Op {
+			if s.Inner == nil || s.Inner2 != nil {
+				return nil
+			}
+			return m(cmpd(Ix(n, *s.Inner), KI(0), UCat("xy")))
+		}},
+		{"nestedAddIdx", func(n *Place, s *shape) *Op {
+			if s.Name != "nest2" && s.Name != "nest2k" && s.Name != "strnestk" {
+				return nil
+			}
+			return m(cmpd(Ix(n, *s.Inner), KI(1), UAdd(3)))
+		}},
+		{"nested2CatIdx", func(n *Place, s *shape) *Op {
+			if s.Inner2 == nil {
+				return nil
+			}
+			return m(cmpd(Ix(Ix(n, *s.Inner), *s.Inner2), KI(0), UCat("xy")))
+		}},
+	}...)
+}
+
 func mutationByName(n string) *mutation {
 	for i := range mutations {
 		if mutations[i].Name == n {
@@ -301,8 +381,21 @@ func mutationByName(n string) *mutation {
 // name holds; "nested" ones write an array inside it)
 func nestedMutation(name string) bool { return len(name) > 6 && name[:6] == "nested" }
 
+// plain mutations that are also applied to the shapes with string elements (every compound
+// assignment is; the plain stores replace cells whatever the cells hold)
+var strShapeMuts = map[string]bool{"storeIdx": true, "storeKey": true, "append": true, "unset": true, "push": true, "pop": true,
+	"array_shift": true, "nestedStoreIdx": true, "nestedAppend": true, "nestedUnset": true}
+
+func compoundMutation(name string) bool {
+	return strings.Contains(name, "cat") || strings.Contains(name, "Cat") || strings.Contains(name, "add") || strings.Contains(name, "Add") ||
+		strings.HasPrefix(name, "mul") || strings.HasPrefix(name, "coalesce")
+}
+
 // triple builds the enumerated case (shape × route × mutation × side).
 func triple(s *shape, r *route, mu *mutation, side string) *Case {
+	if s.Strs && !strShapeMuts[mu.Name] && !compoundMutation(mu.Name) {
+		return nil
+	}
 	ops, orig, cp := r.Setup(s)
 	target := cp
 	if side == "orig" {
@@ -354,8 +447,34 @@ func (g *gen) pickKind(k string) (int, bool) {
 	return vh.Pick(g.r, c), true
 }
 
+var genWords = []string{"abcdefgh", "ij", "klmnopqrstuv", "w", "x0y1z2a3"}
+
+// a scalar item: an integer, or (one in three) a string
+func (g *gen) item() Lit {
+	if g.r.Chance(33) {
+		return LStr(vh.Pick(g.r, genWords))
+	}
+	return LInt(g.r.Intn(10))
+}
+
+// (`*=` on an element that is not a number is a fatal error on this tree, and the generator does not
+// know what an element holds: `*=` is exercised by the triples, where it does)
+func (g *gen) upd() Upd {
+	switch g.r.Intn(8) {
+	case 0:
+		return UAdd(g.r.Range(1, 5))
+	case 2:
+		return UCoalesce(g.r.Intn(10))
+	}
+	return UCat(vh.Pick(g.r, genWords))
+}
+
 func (g *gen) litShape() (Lit, int) {
-	switch g.r.Intn(6) {
+	switch g.r.Intn(8) {
+	case 6:
+		return LArr(g.item(), g.item(), g.item()), 0
+	case 7:
+		return LArr(LArr(g.item(), g.item()), g.item()), 1
 	case 0:
 		return LArr(), 0
 	case 1:
@@ -529,6 +648,8 @@ func (g *gen) program(n int) []Op {
 			case 1:
 				l, _ := g.litShape()
 				r = RLit(l)
+			case 2:
+				r = RStr(vh.Pick(g.r, genWords))
 			default:
 				r = RInt(g.r.Intn(10))
 			}
@@ -537,6 +658,9 @@ func (g *gen) program(n int) []Op {
 			nm = g.maybeInner(nm)
 			if g.r.Chance(30) {
 				ops = append(ops, app(nm, r))
+			} else if g.r.Chance(40) {
+				// compound assignment: the new element is computed from the old one
+				ops = append(ops, cmpd(nm, g.key(), g.upd()))
 			} else {
 				ops = append(ops, setI(nm, g.key(), r))
 			}
@@ -585,7 +709,11 @@ func (g *gen) program(n int) []Op {
 				case 0:
 					inner = append(inner, app(px, RInt(g.r.Intn(10))))
 				case 1:
-					inner = append(inner, setI(px, g.key(), RInt(g.r.Intn(10))))
+					if g.r.Chance(40) {
+						inner = append(inner, cmpd(px, g.key(), g.upd()))
+					} else {
+						inner = append(inner, setI(px, g.key(), RInt(g.r.Intn(10))))
+					}
 				case 2:
 					inner = append(inner, Op{K: "meth", B: px, M: vh.Pick(g.r, []string{"push", "pop", "shift"}), N: g.r.Intn(10)})
 				case 3:
